@@ -196,8 +196,10 @@ class Parser:
                     buf.back(self.expand_verb_env_token(tok))
                     continue
                 else:
+                    # NB: the token may stem from a macro body (pos_fix)
                     out.append(defs.ActionToken(tok.pos))
-                    out.append(defs.TextToken(tok.pos, tok.txt))
+                    out.append(defs.TextToken(tok.pos, tok.txt,
+                                                pos_fix=tok.pos_fix))
             elif type(tok) is defs.BeginToken:
                 buf.back(self.begin_environment(buf, tok, False))
                 continue
@@ -496,16 +498,18 @@ class Parser:
     def expand_verb_env_token(self, tok):
         tok = copy.copy(tok)
         tok.environ = False
+        # NB: if the token stems from a macro body, its position is fixed
+        end = tok.pos if tok.pos_fix else tok.pos + len(tok.txt)
         return [
                     defs.BeginToken(tok.pos, '\\begin'),
                     defs.SpecialToken(tok.pos, '{'),
                     defs.TextToken(tok.pos, 'verbatim'),
                     defs.SpecialToken(tok.pos, '}'),
                     tok,
-                    defs.EndToken(tok.pos + len(tok.txt), '\\end'),
-                    defs.SpecialToken(tok.pos + len(tok.txt), '{'),
-                    defs.TextToken(tok.pos + len(tok.txt), 'verbatim'),
-                    defs.SpecialToken(tok.pos + len(tok.txt), '}'),
+                    defs.EndToken(end, '\\end'),
+                    defs.SpecialToken(end, '{'),
+                    defs.TextToken(end, 'verbatim'),
+                    defs.SpecialToken(end, '}'),
         ]
 
     #   parse (skip) optional [...] after \\
